@@ -281,11 +281,14 @@ fn run_check(def: &CheckDef, args: &Args) -> i32 {
         }
         let (min_sc, tried) = minimise::minimise(def.execute, &sc, sig, Duration::from_secs(20));
         let mut a3 = Acc::default();
+        sim::LOG_CAPTURE.with(|c| *c.borrow_mut() = Some(Vec::new()));
         let detail = match (def.execute)(&min_sc, &mut a3) {
             Ok(vs) => vs.into_iter().find(|v| v.signature() == *sig).unwrap_or(f.violation.clone()),
             Err(_) => f.violation.clone(),
         };
-        let path = match write_replay(&vdir.join("replays"), def, base_seed, reported, &min_sc, &detail, &[]) {
+        let captured = sim::LOG_CAPTURE.with(|c| c.borrow_mut().take()).unwrap_or_default();
+        let tail: Vec<String> = captured.iter().rev().take(120).rev().cloned().collect();
+        let path = match write_replay(&vdir.join("replays"), def, base_seed, reported, &min_sc, &detail, &tail) {
             Ok(p) => p,
             Err(e) => {
                 eprintln!("harness error: cannot write replay file: {e}");
